@@ -30,6 +30,10 @@ func main() {
 		fmt.Println("COMPILE ERROR:", err)
 		os.Exit(1)
 	}
+	if os.Getenv("PROBE_CLIENT") != "" {
+		dumpClient(files, pkg)
+		return
+	}
 	for _, f := range files {
 		txt, err := gj5s.Print(f)
 		fmt.Printf("=== %s (package %s)\n", f.Path(), f.Package())
